@@ -48,6 +48,14 @@ func runC09(m *Sim) {
 	n.DoAuthorize(dev.Auth)
 	origin := start - uint32(m.C.Int("origin-back", 3))
 	cl := w.AddClient("cli0", dev, gca.Pub, []*ServerNode{n}, origin)
+	// Calibration of the current transformer: the installer's file, or none
+	// (defaults). Large dividers scale small real readings down to the
+	// reserved values 0 and 1, which the server does not act on.
+	if k := m.C.Weighted("calibration", 3, 1, 1, 1, 1); k > 0 {
+		cal := []string{"", "1\n100\n", "-1\n1\n", "3\n7\n", "1\n100000\n"}[k]
+		must(os.WriteFile(filepath.Join(cl.Dir, client.CTSettingsFile), []byte(cal), 0644))
+		m.Probe("c09.calibration-file")
+	}
 	wide := m.C.Chance("wide-class", 1, 10)
 	cap := &c08Capture{first: map[uint32][]byte{}, count: map[uint32]int{}}
 	// The known-finding class "wide" is decided by the input: timeslots for
@@ -107,7 +115,7 @@ func runC09(m *Sim) {
 			}
 		}
 	}
-	readings := []string{"5100", "77000.5", "-300", "-51000.25", "10", "error", "2147483", "-2147483", "6000"}
+	readings := []string{"5100", "77000.5", "-300", "-51000.25", "10", "error", "2147483", "-2147483", "6000", "50", "150", "-99"}
 	if wide {
 		readings = append(readings, "3000000000", "-2200000000", "5000000000000")
 	}
